@@ -484,18 +484,16 @@ func cmdRace(args []string) {
 	for i, d := range docs {
 		keep[i] = append([]byte{}, d...)
 	}
-	seq := make([]string, len(docs))
-	for i, d := range docs {
-		seq[i] = apiSnapshot(d)
-	}
+	// the concurrent phase runs FIRST (lazily initialised or memoised package state would be
+	// initialised by a sequential pre-pass and its racy first writes would never be seen)
 	workers := 16
 	var wg sync.WaitGroup
-	var mu sync.Mutex
-	mism := 0
-	calls := 0
-	shared := &rjson.ValueReader{} // NOT shared across goroutines: each worker gets its own below
-	_ = shared
+	results := make([][]string, workers)
+	vals := make([][]bool, workers)
+	perWorker := make([]int, 64*workers) // one slot per worker, padded: no sharing
 	for w := 0; w < workers; w++ {
+		results[w] = make([]string, len(docs))
+		vals[w] = make([]bool, len(docs))
 		wg.Add(1)
 		go func(w int) {
 			defer wg.Done()
@@ -503,23 +501,33 @@ func cmdRace(args []string) {
 			for k := 0; k < len(docs); k++ {
 				i := (k*7 + w*13) % len(docs)
 				got := apiSnapshot(docs[i])
-				mu.Lock()
-				calls += strings.Count(got, "|") + 3 // API calls in the snapshot + the two ReadValue calls below
-				mu.Unlock()
+				// (no lock here: a mutex per iteration would order the goroutines and hide races)
+				perWorker[w*64] += strings.Count(got, "|") + 3
 				v, _, _ := rd.ReadValue(docs[i])
 				v2, _, _ := rjson.ReadValue(docs[i])
-				if got != seq[i] || !reflect.DeepEqual(v, v2) {
-					mu.Lock()
-					mism++
-					if mism <= 3 {
-						fmt.Printf("RACE-MISMATCH %s\n", hex.EncodeToString(docs[i]))
-					}
-					mu.Unlock()
-				}
+				results[w][i] = got
+				vals[w][i] = reflect.DeepEqual(v, v2)
 			}
 		}(w)
 	}
 	wg.Wait()
+	calls := 0
+	for _, c := range perWorker {
+		calls += c
+	}
+	// sequential reference afterwards
+	mism := 0
+	for i, d := range docs {
+		want := apiSnapshot(d)
+		for w := 0; w < workers; w++ {
+			if results[w][i] != "" && (results[w][i] != want || !vals[w][i]) {
+				mism++
+				if mism <= 3 {
+					fmt.Printf("RACE-MISMATCH %s\n", hex.EncodeToString(d))
+				}
+			}
+		}
+	}
 	mod := 0
 	for i := range docs {
 		if !bytes.Equal(docs[i], keep[i]) {
